@@ -144,6 +144,12 @@ func TestVerifC16(t *testing.T) {
 			vio.emit("%s", vfC16ConcurrentHW(t, state, f[1], n, f[3]))
 			continue
 		}
+		if len(f) == 4 && f[0] == "fine" && f[1] == "totp" {
+			// fine totp <auth|verify,…> <schedule>: the same valid one-time code presented by 2 or 3 requests,
+			// every interleaving step forced: load, the part between the load's return and the save, save
+			vio.emit("%s", vfC16FineTOTP(t, state, strings.Split(f[2], ","), f[3]))
+			continue
+		}
 		if len(f) == 6 && f[0] == "triple" {
 			vfC16Fixture(t, state, f[1])
 			var hs [3]http.HandlerFunc
@@ -532,4 +538,126 @@ func vfC16ConcurrentUnseal(t *testing.T, state *RuntimeState, n int) string {
 	close(start)
 	wg.Wait()
 	return fmt.Sprintf("%d %s", oks, vfSealDigest(0, st))
+}
+
+// vfC16FineTOTP: fresh user with a real TOTP secret; requests A, B (, C) present the current code through
+// TOTPAuthHandler (`auth`) or verifyTOTPHandler (`verify`). The n-th occurrence of a letter in the schedule
+// releases that request's n-th parking point: before the profile load statement, after the load has
+// returned (so the spacing test-and-set and the evaluation of the code run when THIS step is scheduled), and
+// before the profile save. `<ok|refused|panic> … stored=<new|old>`; `ok` = the request was told the code is
+// valid (auth: 200 or a session cookie carrying the TOTP level; verify: the redirect to the profile page).
+// The spacing is a wall-clock window (2 s): a round that took longer than 1.2 s says nothing about "the
+// same moment" and is repeated (3 times, then `slow`).
+var vfC16FineSeq int
+
+func vfC16FineTOTP(t *testing.T, state *RuntimeState, kinds []string, schedule string) string {
+	if len(kinds) < 2 || len(kinds) > 3 {
+		return "bad-op"
+	}
+	for _, k := range kinds {
+		if k != "auth" && k != "verify" {
+			return "bad-op"
+		}
+	}
+	for _, c := range schedule {
+		if c < 'A' || int(c-'A') >= len(kinds) {
+			return "bad-op"
+		}
+	}
+	for attempt := 0; attempt < 3; attempt++ {
+		vfC16FineSeq++
+		user := fmt.Sprintf("fineuser%d", vfC16FineSeq)
+		key, err := totp.Generate(totp.GenerateOpts{Issuer: "vf", AccountName: user})
+		if err != nil {
+			t.Fatal(err)
+		}
+		enc, err := state.encryptWithPublicKeys([]byte(key.Secret()))
+		if err != nil {
+			t.Fatal(err)
+		}
+		p := &userProfile{U2fAuthData: map[int64]*u2fAuthData{}, WebauthnData: map[int64]*webauthAuthData{},
+			TOTPAuthData: map[int64]*totpAuthData{1: {Enabled: true, Name: "t", EncryptedSecret: enc}}}
+		if err := state.SaveUserProfile(user, p); err != nil {
+			t.Fatal(err)
+		}
+		code, err := totp.GenerateCode(key.Secret(), time.Now())
+		if err != nil {
+			t.Fatal(err)
+		}
+		var mu sync.Mutex
+		res := map[string]string{}
+		tasks := map[string]*vfTask{}
+		for i, kind := range kinds {
+			name, kind := string(rune('A'+i)), kind
+			form := neturl.Values{}
+			form.Set("OTP", code)
+			h, path := state.TOTPAuthHandler, totpAuthPath
+			if kind == "verify" {
+				h, path = state.verifyTOTPHandler, totpVerifyHandlerPath
+			}
+			req := vfFormPost(path, form)
+			req.Header.Set("Accept", "application/json")
+			req.AddCookie(vfAuthCookie(t, state, user, AuthTypePassword))
+			tasks[name] = &vfTask{name: name, run: func() {
+				rr, pn := vfServe(h, req)
+				out := "refused"
+				if pn != nil {
+					out = "panic"
+				} else if kind == "auth" && (rr.Code == 200 || vfC16RaisedTo(state, rr, AuthTypeTOTP)) {
+					out = "ok"
+				} else if kind == "verify" && rr.Code == 302 && rr.Header().Get("Location") == profilePath {
+					out = "ok"
+				}
+				mu.Lock()
+				res[name] = out
+				mu.Unlock()
+			}}
+		}
+		var sched []string
+		for _, c := range schedule {
+			sched = append(sched, string(c))
+		}
+		vfSched.mu.Lock()
+		vfPostLoad = true
+		vfSched.mu.Unlock()
+		begin := time.Now()
+		vfRunSchedule(t, tasks, sched)
+		took := time.Since(begin)
+		vfSched.mu.Lock()
+		vfPostLoad = false
+		vfSched.mu.Unlock()
+		if took > 1200*time.Millisecond {
+			continue
+		}
+		stored := "old"
+		if q, _, _, err := state.LoadUserProfile(user); err != nil {
+			stored = "load-error"
+		} else if q.LastSuccessfullTOTPCounter > 0 {
+			stored = "new"
+		}
+		var outs []string
+		for i := range kinds {
+			o, ok := res[string(rune('A'+i))]
+			if !ok {
+				o = "unfinished"
+			}
+			outs = append(outs, o)
+		}
+		return strings.Join(outs, " ") + " stored=" + stored
+	}
+	return "slow"
+}
+
+// vfC16RaisedTo: did the response hand out a session cookie that carries the given level?
+func vfC16RaisedTo(state *RuntimeState, rr *httptest.ResponseRecorder, level int) bool {
+	for _, ck := range rr.Result().Cookies() {
+		if ck.Name != authCookieName {
+			continue
+		}
+		info, err := state.getAuthInfoFromAuthJWT(ck.Value)
+		if err == nil && info.AuthType&level != 0 {
+			return true
+		}
+	}
+	return false
 }
